@@ -1,3 +1,4 @@
+(* C05 - Inv2 is inductive; quiescence (Stable); no stranded waiter, modulo the empty-queue pop (closed in MutexPop) *)
 From Coq Require Import List Arith Bool Lia.
 Import ListNotations.
 Require Import MayV.Sync.MutexModel MayV.Sync.MutexInv MayV.Sync.MutexME MayV.Sync.MutexLiveInv MayV.Sync.MutexLive1 MayV.Sync.MutexLive2 MayV.Sync.MutexLive4 MayV.Sync.MutexLive5 MayV.Sync.MutexLive6.
